@@ -700,6 +700,57 @@ func boundaryCase(prop string, n, k int, pendingOnly bool, gateKey string) {
 		was, errs(de), midHead, hd, tl, reg, strings.Join(stored, ","))
 }
 
+// wipeRaceCase: a DeleteRange over the WHOLE chain [1, n+1) racing appends of n+1 .. n+more at the head (issued, and synced,
+// while the deletion is under way). Whatever the order, a sequential execution ends with exactly n+1 .. n+more.
+func wipeRaceCase(prop string, n, more, batch int) {
+	ctx := context.Background()
+	chain := vhdr.Chain("A", n+more, time.Now().Add(-time.Hour).UnixNano(), 1e9, 0)
+	core := memds.NewCore()
+	st, err := store.NewStore[*vhdr.Header](&memds.Plain{C: core}, store.WithWriteBatchSize(batch))
+	if err != nil {
+		panic(err)
+	}
+	if err := func() error { sc, end := startCtx(); defer end(); return st.Start(sc) }(); err != nil {
+		panic(err)
+	}
+	defer st.Stop(ctx) //nolint:errcheck
+	_ = st.Append(ctx, chain[:n]...)
+	_ = st.Sync(ctx)
+	mon := watchHead(st)
+	var once sync.Once
+	st.OnDelete(func(ctx context.Context, h uint64) error {
+		if h == uint64(n/2) {
+			once.Do(func() {
+				_ = st.Append(ctx, chain[n:]...)
+				c, cancel := context.WithTimeout(context.Background(), 2*time.Second)
+				_ = st.Sync(c)
+				cancel()
+			})
+		}
+		return nil
+	})
+	c, cancel := context.WithTimeout(ctx, 5*time.Second)
+	de := st.DeleteRange(c, 1, uint64(n+1))
+	cancel()
+	_ = st.Sync(ctx)
+	hd, tl := uint64(0), uint64(0)
+	if h, err := st.Head(ctx); err == nil {
+		hd = h.H
+	}
+	if h, err := st.Tail(ctx); err == nil {
+		tl = h.H
+	}
+	reg := mon.finish()
+	var stored []string
+	for h := 1; h <= n+more; h++ {
+		if x, err := st.GetByHeight(cancelled, uint64(h)); err == nil && x.H == uint64(h) {
+			stored = append(stored, itoa(h))
+		}
+	}
+	emit("%s kind=boundary n=%d k=%d pendingonly=false gate=wholechain => parked=- delete=%s midhead=0 head=%d tail=%d regress=%s stored=%s", prop, n+1, more-1,
+		errs(de), hd, tl, reg, strings.Join(stored, ","))
+}
+
 // tornCase: DeleteRange(1,to) over headers that are still only pending; the deleter's look-up of the new tail is
 // parked holding its datastore answer while appends fill the batch and the flush loop commits and resets pending.
 func tornCase(prop string, n, to, more, batch int) {
@@ -788,6 +839,8 @@ func runConc(prop, tier string, r *rng) {
 			boundaryCase(prop, 6, 3, pend, "/tail")
 			boundaryCase(prop, 9, 1, pend, "/head")
 		}
+		wipeRaceCase(prop, 10, 5, 2)
+		wipeRaceCase(prop, 6, 3, 64)
 		tornCase(prop, 6, 4, 5, 8)
 		tornCase(prop, 5, 3, 6, 8)
 		tornCase(prop, 10, 7, 3, 12)
